@@ -1,5 +1,5 @@
 import CollectionsC.Properties.C01Sized
-import CollectionsC.Proofs.ArraySized8
+import CollectionsC.Proofs.ArraySized9
 /-! # C18 (sized array part) — sorting yields an ordered permutation
 
 Statements only, relative to the `qsort` contract: `cc_array_sized_sort` hands the buffer, the
@@ -10,26 +10,43 @@ namespace CC.Properties.C18Sized
 open CC CC.Gen CC.ArraySized
 
 /-- **sort_ordered_permutation**: same multiset of records, pairwise ordered, size and
-configuration unchanged, invariant kept -/
-theorem sort_ordered_permutation (a : ArraySized) (sortFn : List Elem → List Elem) (gt : Elem → Elem → Prop)
+configuration unchanged, invariant kept, no fault (the checked access covers exactly the first
+`size * data_length` bytes) -/
+theorem sort_ordered_permutation (a : ArraySized) (sortFn : List Elem → List Elem) (gt : Elem → Elem → Prop) (m : Mem)
     (h : a.Inv) (hperm : ∀ l, (sortFn l).Perm l) (hsorted : ∀ l, (sortFn l).Pairwise (fun x y => ¬ gt x y)) :
-    (a.sort sortFn).abs.Perm a.abs ∧ (a.sort sortFn).abs.Pairwise (fun x y => ¬ gt x y) ∧
-    (a.sort sortFn).Inv ∧ (a.sort sortFn).size = a.size :=
-  C01Sized.C18_sized_sort a sortFn gt h hperm hsorted
+    (a.sort sortFn m).1.abs.Perm a.abs ∧ (a.sort sortFn m).1.abs.Pairwise (fun x y => ¬ gt x y) ∧
+    (a.sort sortFn m).1.Inv ∧ (a.sort sortFn m).1.size = a.size ∧ (a.sort sortFn m).2 = m := by
+  obtain ⟨s1, s2, _, _, _, s6, s7, _⟩ := sort_spec a sortFn m h (hperm a.abs)
+  rw [s2]
+  exact ⟨hperm a.abs, hsorted a.abs, s1, s6, s7⟩
 
-/-- the ends are consistent with the content: first and last record of the result are the first and
-last of `sortFn abs`, capacity and element size are untouched -/
-theorem sort_configuration (a : ArraySized) (sortFn : List Elem → List Elem) (h : a.Inv)
+/-- the instance for **every total-preorder comparator**: with `sortFn := mergeSort le` (`le` total and
+transitive: a comparator in the sense of the property, ties allowed) the hypotheses above are theorems,
+so the sorted array is an `le`-ordered permutation of the old content -/
+theorem sort_total_preorder (a : ArraySized) (le : Elem → Elem → Bool) (m : Mem) (h : a.Inv)
+    (htrans : ∀ x y z, le x y = true → le y z = true → le x z = true) (htotal : ∀ x y, (le x y || le y x) = true) :
+    (a.sort (fun l => l.mergeSort le) m).1.abs.Perm a.abs ∧
+    (a.sort (fun l => l.mergeSort le) m).1.abs.Pairwise (fun x y => le x y = true) ∧
+    (a.sort (fun l => l.mergeSort le) m).1.Inv := by
+  obtain ⟨s1, s2, _⟩ := sort_spec a (fun l => l.mergeSort le) m h (List.mergeSort_perm _ _)
+  rw [s2]
+  exact ⟨List.mergeSort_perm _ _, List.pairwise_mergeSort htrans htotal _, s1⟩
+
+/-- the ends are consistent with the content, capacity and element size are untouched, and so is
+every record at or above `size` (the dead slots of the buffer) -/
+theorem sort_configuration (a : ArraySized) (sortFn : List Elem → List Elem) (m : Mem) (h : a.Inv)
     (hperm : ∀ l, (sortFn l).Perm l) :
-    (a.sort sortFn).abs = sortFn a.abs ∧ (a.sort sortFn).capacity = a.capacity ∧
-    (a.sort sortFn).dataLen = a.dataLen ∧ (a.sort sortFn).abs.length = a.size := by
-  obtain ⟨_, s2, s3, _, s5, s6⟩ := sort_spec a sortFn h (hperm a.abs)
-  exact ⟨s2, s5, s3, by rw [abs_length, s6]⟩
+    (a.sort sortFn m).1.abs = sortFn a.abs ∧ (a.sort sortFn m).1.capacity = a.capacity ∧
+    (a.sort sortFn m).1.dataLen = a.dataLen ∧ (a.sort sortFn m).1.abs.length = a.size ∧
+    (∀ k, a.size ≤ k → k < a.capacity → (a.sort sortFn m).1.chunk k = a.chunk k) := by
+  obtain ⟨_, s2, s3, _, s5, s6, _, s8⟩ := sort_spec a sortFn m h (hperm a.abs)
+  exact ⟨s2, s5, s3, by rw [abs_length, s6], s8⟩
 
-/-- sorting an empty or single-element array changes nothing -/
-theorem sort_identity_le_one (a : ArraySized) (sortFn : List Elem → List Elem) (h : a.Inv)
-    (hperm : ∀ l, (sortFn l).Perm l) (h1 : a.size ≤ 1) : (a.sort sortFn).abs = a.abs :=
-  sort_le_one a sortFn h hperm h1
+/-- sorting an empty or single-element array changes **nothing**: the whole physical state (dead
+slots, capacity) and the ledger are what they were -/
+theorem sort_identity_le_one (a : ArraySized) (sortFn : List Elem → List Elem) (m : Mem) (h : a.Inv)
+    (hperm : ∀ l, (sortFn l).Perm l) (h1 : a.size ≤ 1) : a.sort sortFn m = (a, m) :=
+  sort_le_one_phys a sortFn h hperm h1 m
 
 /-! Non-vacuity of the `qsort` contract: `List.mergeSort` with the total preorder "first byte ≤ first
 byte" (not injective: ties) returns a permutation that is pairwise ordered, i.e. satisfies `hperm`
@@ -49,7 +66,7 @@ example : ∀ l : List Elem, (l.mergeSort (fun x y => decide (x.headD 0 ≤ y.he
 example :
     let a : ArraySized := { dataLen := 2, size := 3, capacity := 4, grow := fun c => 2 * c,
                             buf := [3, 0, 2, 0, 1, 0, 205, 205] }
-    a.Inv ∧ (a.sort List.reverse).abs = [[1, 0], [2, 0], [3, 0]] ∧ (a.sort List.reverse).Inv ∧
-    (a.sort List.reverse).buf = [1, 0, 2, 0, 3, 0, 205, 205] := by decide
+    a.Inv ∧ (a.sort List.reverse {}).1.abs = [[1, 0], [2, 0], [3, 0]] ∧ (a.sort List.reverse {}).1.Inv ∧
+    (a.sort List.reverse {}).1.buf = [1, 0, 2, 0, 3, 0, 205, 205] ∧ (a.sort List.reverse {}).2.fault = false := by decide
 
 end CC.Properties.C18Sized
